@@ -33,7 +33,7 @@ _setup_path()
 import z3  # noqa: E402
 
 from . import native, smt  # noqa: E402
-from .engine import Engine, Unsupported, resolve_target  # noqa: E402
+from .engine import Engine, PathEnd, Unsupported, resolve_target  # noqa: E402
 from .spec import REGISTRY  # noqa: E402
 
 _LOADED = False
@@ -144,6 +144,13 @@ def gen_unit(job):
         return out
     except RecursionError as e:  # pragma: no cover
         out["undecided"] = f"recursion: {e}"
+        return out
+    except PathEnd:
+        raise
+    except Exception as e:  # noqa
+        # the contract (a loop invariant naming a local, a clause reading a field ...) does not fit the code as it is
+        # now: the unit is undecided, the run goes on (a crash of the whole check would hide every other verdict)
+        out["undecided"] = f"contract does not fit the code: {type(e).__name__}: {e}"
         return out
     out["gen_s"] = time.time() - t0
     out["paths"] = len(en.paths)
@@ -360,13 +367,22 @@ def run_property(pid, tier="quick", seed=0, jobs=None):
             # one native witness search per function that has undecided VCs
             need = {}
             for u in results:
-                if any(o["status"] == "unknown" for o in u.get("obligations", [])):
+                if any(o["status"] == "unknown" for o in u.get("obligations", [])) or u.get("undecided"):
                     need.setdefault((u["target"], u["sc_index"], u["in_case"]), []).append(u)
             nf = {k: ex.submit(search_unit, (k[0], k[1], seed, k[2])) for k in need}
             for k, f in nf.items():
                 rp = f.result()
                 if rp.get("reproduced"):
                     for u in need[k]:
+                        if u.get("undecided"):
+                            # no VC could be generated for this unit, but the real function breaks its contract on
+                            # a concrete input: that is the verdict
+                            u["obligations"] = [{"name": f"{u['target']}[{u.get('case')}]/contract-on-real-function",
+                                                 "kind": "unit", "status": "refuted", "backend": "native-search",
+                                                 "time": 0.0, "size": 0, "reason": u["undecided"], "replay": rp}]
+                            u["undecided"] = None
+                            u["paths"] = u.get("paths") or 0
+                            continue
                         for o in u["obligations"]:
                             if o["status"] == "unknown":
                                 o["status"] = "refuted"
